@@ -7,6 +7,7 @@ package vt
 import (
 	"fmt"
 	"strings"
+	"unicode"
 	"unicode/utf8"
 
 	runewidth "github.com/mattn/go-runewidth"
@@ -40,10 +41,10 @@ func (c Color) String() string {
 
 // Pen is the current graphic rendition.
 type Pen struct {
-	Fg, Bg, Ul                                 Color
+	Fg, Bg, Ul                                Color
 	Bold, Dim, Italic, Blink, Reverse, Strike bool
-	UL                                         int // 0 none 1 single 2 double 3 curly 4 dotted 5 dashed
-	Link, LinkID                               string
+	UL                                        int // 0 none 1 single 2 double 3 curly 4 dotted 5 dashed
+	Link, LinkID                              string
 }
 
 type Cell struct {
@@ -79,8 +80,8 @@ type Term struct {
 	Q         Quirks
 
 	CursorVisible bool
-	CursorStyle   int    // DECSCUSR parameter, 0 = default
-	CursorColor   string // "" = default
+	CursorStyle   int          // DECSCUSR parameter, 0 = default
+	CursorColor   string       // "" = default
 	Modes         map[int]bool // DEC private modes
 	AnsiModes     map[int]bool
 	KeypadApp     bool
@@ -376,6 +377,9 @@ func (t *Term) printGlyph(r rune) {
 	}
 	t.Text = append(t.Text, r)
 	w := runewidth.RuneWidth(r)
+	if r >= 0 && r <= 0x10ffff && unicode.In(r, unicode.Cf, unicode.Mn, unicode.Me) {
+		w = 0 // no cell of their own by the Unicode standard, whatever the width table says
+	}
 	if w == 0 {
 		// combining: attaches to the previously printed cell
 		x := t.CX - 1
